@@ -10,6 +10,10 @@ TRUST = ("rustc 1.95.0 and its diagnostics, the std derives, the hand-written dx
 
 # id -> (technique, level text, design ref, level note)
 CHECKS = {
+    "C04": ("where-clause atoms of in-process expansions vs the reference resolution at scale; every textual mismatch (and a sample) confirmed by trait-solver bits of compiled programs",
+            "Held on every configuration expanded in the run (every level alone with every form, level pairs, random assignments); "
+            "a compiled sample agrees behaviourally (probe_impl! with one-marker-missing instantiations).",
+            "DESIGN.md §4 C04", "priority table and stop rule read from the documentation; " + TRUST),
     "C03": ("trait-solver bits (probe_impl!) of derive_ex types vs twin types carrying the documented where-clause, evaluated by rustc at run time",
             "Held on every probe bit of every generated shape of the run; generated impls must type-check whenever the twin does.",
             "DESIGN.md §4 C03", "rustc's trait solver is the observation channel; the twin's where-clause is the reference model's reading of the doc; " + TRUST),
